@@ -17,4 +17,4 @@ R11.6 pattern ids come from the enumeration index only."""
 NOT_DECIDED = """That the union of these sites is complete for every byte in every search path (argued by inventory: nothing else reads pattern bytes; Teddy is excluded rather than folded)."""
 CLAIM = """Static decision of the letter-only case flip (exhaustive decision table over the byte domain), of the pairing of every byte registration with its other-case twin under the single flag, and of the exclusion of the non-folding prefilters."""
 NOTE = """Trusted: rustc MIR construction, the fact extractor, std's to_ascii_lowercase/uppercase."""
-TECHNIQUE = "static analysis: decision-table extraction over a finite domain, pairing (must-pass-through) rules and flag provenance over rustc MIR"
+TECHNIQUE = "static analysis: decision-table extraction over a finite domain, pairing (must-pass-through) rules, iteration summaries of the enqueue discipline and flag provenance over rustc MIR"
